@@ -39,7 +39,7 @@ type Span struct {
 	Attrs   []KV   `json:"attrs,omitempty"` // OTLP span attributes / Zipkin tags (Kind "str" = spec; others = out of spec JSON values)
 
 	// Zipkin only
-	Local      *string `json:"local,omitempty"`  // localEndpoint.serviceName (nil = no localEndpoint key; "" allowed)
+	Local      *string `json:"local,omitempty"` // localEndpoint.serviceName (nil = no localEndpoint key; "" allowed)
 	LocalNoSvc bool    `json:"local_nosvc,omitempty"`
 	Remote     *string `json:"remote,omitempty"` // remoteEndpoint.serviceName
 	HasTags    bool    `json:"has_tags,omitempty"`
